@@ -15,6 +15,7 @@ SHAPES = [
     "!oneof {discriminator: d, one_of: {}}", '!oneof {discriminator: [1], one_of: {a: !expr "$.input"}}', '!oneof {discriminator: d, one_of: {a: x, b: [1]}}',
     '!oneof {discriminator: d, one_of: {a: !oneof {discriminator: e, one_of: {}}}}', "!oneof [a, b]",
     "!ordisabled x", "!ordisabled [1]", '!ordisabled "$.steps.a.outputs"', '!ordisabled "$.steps"', '!ordisabled "steps.a.outputs.success"', '!ordisabled ""', '!ordisabled "$.input.tag"',
+    '!soft-optional "0!"', '!wait-optional "$.steps.a.outputs.success!"', '!soft-optional "((("', '!wait-optional "1 +"', '!ordisabled "0!"', '!oneof {discriminator: d, one_of: {a: !expr "0!"}}',
     "!soft-optional [1]", "!wait-optional {}", '!soft-optional "$.x("', '!wait-optional ""', '!soft-optional "$.steps.a.outputs.success"', "!wait-optional x",
     "!foo x", "!!binary x", "!!int x", "!!map x", "!!seq {a: b}", "!!str [1]", "! x",
 ]
